@@ -184,12 +184,23 @@ func (c *Ctx) Confirm(f *Finding, run func() *Finding) {
 			if g != nil {
 				got = g.Sig
 			}
+			if CurFlavour != "sched" {
+				// outside the controlled scheduler the library's sync.Pool reuse (and its goroutines)
+				// are real: a failure that depends on which buffer a pool hands out is still a
+				// failure of the code under test, observed once
+				f.Sig += " [not on every re-run: depends on buffer-pool reuse or timing the harness does not control in this flavour]"
+				c.Report(f)
+				return
+			}
 			c.Machinery("non-deterministic verdict: first %q then %q", f.Sig, got)
 			return
 		}
 	}
 	c.Report(f)
 }
+
+// CurFlavour is the build flavour of the running binary (set by Main).
+var CurFlavour = "plain"
 
 // ConfirmFree is Confirm for cases that involve free-running goroutines (real concurrency in
 // flavour plain): the observed violation is a fact about one real execution, so when it does not
@@ -298,6 +309,7 @@ func envInt(k string, def int64) int64 {
 //	vrun <prop> -replay <file>       re-executes one recorded case
 //	(internal) VERIF_SHARD=i/N VERIF_PARTIAL=<file> vrun <prop>
 func Main(flavour string) {
+	CurFlavour = flavour
 	debug.SetPanicOnFault(true)
 	if len(os.Args) < 2 {
 		fmt.Fprintln(os.Stderr, "usage: vrun <property> [-replay file]")
